@@ -31,15 +31,13 @@ theorem skip_exogenous_absent_throws (st : SkipState) (on : Bool) (h : st.hasExo
   cases on <;> cases p <;> cases s <;> cases c <;> rcases e with _ | (_ | _) <;>
     first | decide | (revert h; decide)
 
-/-- **Counterexample to totality on one configuration (finding).**  A particle filter whose
-    prediction is built with `DrawParticles(state_model, exogenous_model)` *has* an exogenous
-    model in its configuration, yet 'exogenous' throws: the constructor never attaches the model
-    to the state model (`drawTwoArgConfig`).  `skip_total` covers this configuration only under
-    its hypothesis `st.hasExo`, which fails here. -/
-theorem skip_exogenous_draw_two_arg_counterexample (on : Bool) :
-    (drawTwoArgConfig true).hasExo = false ∧
-    (filterSkip (drawTwoArgConfig true) .exogenous on).out = .thrown ∧
-    predPath .draw (drawTwoArgConfig true) = .ran .fx := by
+/-- The configuration built with `DrawParticles(state_model, exogenous_model)` (fixed by
+    18ea290: the constructor attaches the model) is covered by `skip_total`: the exogenous model
+    is attached, 'exogenous' returns `true`, and the never-skipped prediction applies the input. -/
+theorem skip_total_draw_two_arg (on : Bool) :
+    (drawTwoArgConfig true).hasExo = true ∧
+    (filterSkip (drawTwoArgConfig true) .exogenous on).out = .ret true ∧
+    predPath .draw (drawTwoArgConfig true) = .ran .fxExo := by
   cases on <;> decide
 
 /-- No command ever throws after having written a flag: a thrown command leaves the state as it was. -/
